@@ -30,6 +30,7 @@ import (
 	"go/parser"
 	"go/printer"
 	"go/token"
+	"regexp"
 	"sort"
 	"strings"
 	"unicode"
@@ -733,6 +734,8 @@ structure Route where
 	fmt.Fprintf(&b, "/-- where header writes (`.Header.Set/Add/Del`) go: (method, target, kind, how the target's root was created in the method); kind is `request-created-in-method`, `reachable-from-receiver`, or `other`. -/\ndef headerWriteTargets : List (String × String × String × String) := %s\n", leanList(dedupe(headerTargets)))
 	fmt.Fprintf(&b, "/-- generator side (internal/httpgen/generator.go, loop over service.Methods in the Register emitter): the `methodHeaders` literals printed per iteration, in order: (position, literal). -/\ndef generatorMethodHeaderLits : List (Nat × String) := %s\n", leanList(genRows))
 	fmt.Fprintf(&b, "/-- every iteration prints an assignment of `methodHeaders` before the BindingMiddleware call that passes it. -/\ndef generatorAssignsMethodHeadersPerIteration : Bool := %v\n", genOK)
+	fmt.Fprintf(&b, "/-- the test under which an iteration of that loop prints the DECLARATION (`:=`) instead of the assignment (loop key written `i`). -/\ndef registerLoopDeclareTest : String := %s\n", leanStr(genLoopTest))
+	fmt.Fprintf(&b, "/-- control transfers (continue / break / return / goto) an iteration can take before it reaches that test. -/\ndef registerLoopControlBeforeDeclare : List String := %s\n", leanStrList(genLoopControl))
 	b.WriteString("end Sebuf.Gen.Globals\n")
 	return b.String(), nil
 }
@@ -836,6 +839,12 @@ func (g *gState) routeTable(fd *ast.FuncDecl) ([]string, error) {
 
 // generatorMethodHeaders reads the generator side of the anchor: inside the function that prints
 // `func Register…Server`, the loop over service.Methods.
+// set by generatorMethodHeaders
+var (
+	genLoopTest    string
+	genLoopControl []string
+)
+
 func generatorMethodHeaders() ([]string, bool, error) {
 	fset, f, err := parseFile("internal/httpgen/generator.go")
 	if err != nil {
@@ -876,6 +885,52 @@ func generatorMethodHeaders() ([]string, bool, error) {
 	}
 	if loop == nil {
 		return nil, false, fmt.Errorf("internal/httpgen/generator.go: loop over service.Methods in the Register emitter not found")
+	}
+	// the statement that prints the DECLARATION of methodHeaders (`if <key> == 0 { ":=" } else { "=" }`) and every
+	// control transfer (continue / break / return / goto) the loop body can take BEFORE reaching it: an iteration
+	// that leaves early must not be the one that declares
+	genLoopTest, genLoopControl = "", nil
+	keyName := ""
+	if id, ok := loop.Key.(*ast.Ident); ok {
+		keyName = id.Name
+	}
+	var declIf *ast.IfStmt
+	for _, st := range loop.Body.List {
+		if ifs, ok := st.(*ast.IfStmt); ok && declIf == nil {
+			has := false
+			ast.Inspect(ifs, func(m ast.Node) bool {
+				if bl, ok := m.(*ast.BasicLit); ok && bl.Kind == token.STRING && strings.HasPrefix(bl.Value, `"methodHeaders := `) {
+					has = true
+				}
+				return true
+			})
+			if has {
+				declIf = ifs
+			}
+		}
+	}
+	if declIf != nil {
+		cond := srcOf(declIf.Cond)
+		if keyName != "" {
+			cond = regexp.MustCompile(`\b`+regexp.QuoteMeta(keyName)+`\b`).ReplaceAllString(cond, "i")
+		}
+		genLoopTest = cond
+		for _, st := range loop.Body.List {
+			if st == ast.Stmt(declIf) {
+				break
+			}
+			ast.Inspect(st, func(m ast.Node) bool {
+				switch x := m.(type) {
+				case *ast.FuncLit:
+					return false
+				case *ast.BranchStmt:
+					genLoopControl = append(genLoopControl, x.Tok.String())
+				case *ast.ReturnStmt:
+					genLoopControl = append(genLoopControl, "return")
+				}
+				return true
+			})
+		}
 	}
 	var rows []string
 	pos := 0
